@@ -1,6 +1,6 @@
 (* Properties_C17.v — C17: the plain text of a string is preserved from
    construction to the wire. *)
-From TP Require Import Base Elem Term VT Markup Oracle P_Sync P_Step P_Bytes P_Run P_Props Tie_Output.
+From TP Require Import Base Elem Term VT Markup Oracle P_Sync P_Step P_Bytes P_Run P_Props Tie_Output Strings P_Strings.
 Local Open Scope N_scope.
 
 Theorem C17_bytes_roundtrip : forall bs, to_string (of_bytes bs) = bs.
@@ -89,3 +89,48 @@ Example C17_nonvacuous :
   wire (mkGlyph CsUtf8 0 0 0) = [0] /\ glyph_text (mkGlyph CsUtf8 0 0 0) = [0] /\
   wf_utf8 (mkGlyph CsUtf8 226 152 186) = true.
 Proof. repeat split. Qed.
+
+(* the mutating interface of the string class: whatever is inserted, appended,
+   overwritten or erased, the text of the untouched parts is preserved exactly
+   and the text of what was added appears exactly once, where it was put
+   (positions are element indices; an element's text is its glyph's bytes) *)
+Theorem C17_string_operations :
+  forall (s t : tstring) (e : element) (pos a b i : nat),
+    to_string (s_append s t) = to_string s ++ to_string t /\
+    to_string (s_append_elem s e) = to_string s ++ glyph_text (eg e) /\
+    to_string (s_insert s pos e) = to_string (firstn pos s) ++ glyph_text (eg e) ++ to_string (skipn pos s) /\
+    to_string (s_insert_range s pos t) = to_string (firstn pos s) ++ to_string t ++ to_string (skipn pos s) /\
+    to_string (s_erase_range s a b) = to_string (firstn a s) ++ to_string (skipn b s) /\
+    to_string (s_erase_from s pos) = to_string (firstn pos s) /\
+    to_string (s_erase_all s) = [] /\
+    ((i < length s)%nat ->
+     to_string (s_set s i e) = to_string (firstn i s) ++ glyph_text (eg e) ++ to_string (skipn (S i) s)) /\
+    to_string s = to_string (firstn pos s) ++ to_string (skipn pos s).
+Proof.
+  intros s t e pos a b i.
+  split; [apply to_string_app|]. split; [apply to_string_append_elem|].
+  split; [apply to_string_insert|]. split; [apply to_string_insert_range|].
+  split; [apply to_string_erase_range|]. split; [reflexivity|]. split; [reflexivity|].
+  split; [apply to_string_set|apply to_string_split].
+Qed.
+Print Assumptions C17_string_operations.
+
+(* the constructors: from bytes with an attribute (text unchanged, every element
+   carries the attribute), from a C string (the text up to the first NUL, as
+   strlen defines it), and n copies of an element *)
+Theorem C17_string_constructors :
+  forall bs a n e,
+    to_string (s_of_bytes_attr bs a) = bs /\
+    Forall (fun x => ea x = a) (s_of_bytes_attr bs a) /\
+    to_string (s_of_cstr bs) = until_nul bs /\
+    (exists rest, bs = until_nul bs ++ rest /\ (rest = [] \/ hd 1 rest = 0)) /\
+    forallb (fun b => negb (b =? 0)) (until_nul bs) = true /\
+    to_string (s_fill n e) = concat (repeat (glyph_text (eg e)) n).
+Proof.
+  intros bs a n e.
+  split; [apply to_string_of_bytes_attr|].
+  split; [unfold s_of_bytes_attr; apply Forall_forall; intros x Hx; apply in_map_iff in Hx as (y & Hy & _); subst x; reflexivity|].
+  split; [unfold s_of_cstr; apply to_string_of_bytes|].
+  split; [apply until_nul_prefix|]. split; [apply until_nul_no_nul|apply to_string_fill].
+Qed.
+Print Assumptions C17_string_constructors.
